@@ -130,7 +130,7 @@ func c17(c *core.Ctx) {
 	c.Analysed(fname(ss))
 	var sendCalls []ssa.CallInstruction
 	ssax.Instrs(ss, false, func(_ *ssa.Function, in ssa.Instruction) {
-		if ci, ok := in.(ssa.CallInstruction); ok && ci.Common().Value == ssa.Value(ss.Params[2]) {
+		if ci, ok := in.(ssa.CallInstruction); ok && ci.Common().Value == ssa.Value(paramOf(ss, 2)) {
 			sendCalls = append(sendCalls, ci)
 		}
 	})
@@ -207,7 +207,7 @@ func c17(c *core.Ctx) {
 				return
 			}
 			isLocal := func(v ssa.Value) bool { return ssax.LoadOfField(fedPkg + ".Federation.nodeName")(v) }
-			if (bo.X == ssa.Value(shared.Params[0]) && isLocal(bo.Y)) || (bo.Y == ssa.Value(shared.Params[0]) && isLocal(bo.X)) {
+			if (bo.X == ssa.Value(paramOf(shared, 0)) && isLocal(bo.Y)) || (bo.Y == ssa.Value(paramOf(shared, 0)) && isLocal(bo.X)) {
 				pins[bo] = ssax.AVTrue
 				if bo.Op == token.NEQ {
 					pins[bo] = ssax.AVFalse
@@ -221,7 +221,7 @@ func c17(c *core.Ctx) {
 		// a node already served is skipped
 		okSent := false
 		ssax.Instrs(shared, false, func(_ *ssa.Function, in ssa.Instruction) {
-			if l, ok := in.(*ssa.Lookup); ok && l.CommaOk && l.Index == ssa.Value(shared.Params[0]) {
+			if l, ok := in.(*ssa.Lookup); ok && l.CommaOk && l.Index == ssa.Value(paramOf(shared, 0)) {
 				okSent = true
 			}
 		})
